@@ -125,8 +125,8 @@ class Template:
                     if not partial or block_scope:
                         raise LiquidSyntaxError(
                             f"unexpected '{err}'",
-                            token=node.token,
-                            template_name=self.full_name(),
+                            token=err.token or node.token,
+                            template_name=err.template_name or self.full_name(),
                         ) from err
                     raise
                 except RecursionError as err:
@@ -167,8 +167,8 @@ class Template:
                     if not partial or block_scope:
                         raise LiquidSyntaxError(
                             f"unexpected '{err}'",
-                            token=node.token,
-                            template_name=self.full_name(),
+                            token=err.token or node.token,
+                            template_name=err.template_name or self.full_name(),
                         ) from err
                     raise
                 except RecursionError as err:
